@@ -13,9 +13,9 @@ FILE* __real_fopen(const char*, const char*); int __real_fclose(FILE*);
 FILE* __wrap_fopen(const char* p, const char* m) { FILE* f = __real_fopen(p, m); if (f) n_fopen++; return f; }
 int __wrap_fclose(FILE* f) { n_fclose++; return __real_fclose(f); }
 
-static char dir[64];
+static char dir[600];
 static const char* MODES[] = { "", "rb", "wb", "r+b", "w+b" };
-static char pbuf[128];
+static char pbuf[700];
 static const char* path_of(int p) { snprintf(pbuf, sizeof pbuf, "%s/f%d", dir, p); return pbuf; }
 static unsigned char pat(long seed, long k) { return (unsigned char)((seed * 31 + k * 7 + (k / 256)) % 256); }
 
@@ -41,7 +41,10 @@ int main(int argc, char** argv) {
   FILE* sf = __real_fopen(argv[1], "r"); if (!sf) { perror(argv[1]); return 9; }
   if (argc > 2) { ev_fd = open(argv[2], O_WRONLY | O_CREAT | O_TRUNC, 0644); if (ev_fd < 0) { perror(argv[2]); return 9; } }
   hc_install(0);
-  snprintf(dir, sizeof dir, "/tmp/cello_hfile_XXXXXX"); if (!mkdtemp(dir)) return 9;
+  { /* scratch files live next to the event log (the check's private work directory), never directly in /tmp */
+    const char* base = argc > 2 ? argv[2] : "."; const char* sl = strrchr(base, '/');
+    snprintf(dir, sizeof dir, "%.*s/hfile_XXXXXX", sl ? (int)(sl - base) : 1, sl ? base : ".");
+    if (!mkdtemp(dir)) return 9; }
   while (hc_next(sf)) {
     alarm(30);
     if (hc_is(0, "reset")) {
